@@ -78,6 +78,15 @@ func checkC12(c *Ctx, k C12Case) *Verdict {
 	}
 	b := sr.B
 	v.Evals = 1
+	if sr.Unparsable != "" {
+		v.Kind, v.Site = "reserved-word", firstLine(sr.Unparsable)
+		v.Fail = "an emitted file does not parse (a generated identifier is a keyword?): " + sr.Unparsable
+		for n := range b.Inj {
+			v.Fail += "\n" + readBand(b, n)
+			break
+		}
+		return v
+	}
 	an := b.An
 	// package-level names declared by the user (not by emitted files)
 	userNames := map[string]bool{}
